@@ -35,6 +35,7 @@ def ty_sx(t):
     if t[0] == 'T': return "(T %s)" % " ".join(ty_sx(x) for x in t[1])
     if t[0] == 'R': return "(R %s)" % " ".join("(%d %s)" % (f, ty_sx(x)) for f, x in sorted(t[1]))
     if t[0] == 'Fn': return "(Fn (%s) %s)" % (" ".join(ty_sx(x) for x in t[1]), ty_sx(t[2]))
+    if t[0] == 'S': return "(S %d)" % t[1]
     raise ValueError(t)
 
 
@@ -60,8 +61,9 @@ def annotations(p):
 
 def ann_sx(p):
     par, ret = annotations(p)
-    return "(ann (par %s) (ret %s))" % (" ".join("(%d %s)" % (x, ty_sx(t)) for x, t in sorted(par.items())),
-                                       " ".join("(%d %s)" % (x, ty_sx(t)) for x, t in sorted(ret.items())))
+    sums = " ".join("(%d %s)" % (tid, " ".join("-" if c is None else ty_sx(c) for c in cs)) for tid, cs in p.get('types', []))
+    return "(ann (par %s) (ret %s) (sums %s))" % (" ".join("(%d %s)" % (x, ty_sx(t)) for x, t in sorted(par.items())),
+                                                 " ".join("(%d %s)" % (x, ty_sx(t)) for x, t in sorted(ret.items())), sums)
 
 
 def model_line(p, rows, fuel=FUEL):
@@ -136,6 +138,23 @@ def bind_pat_ty(q, t, env):
             bind_pat_ty(s, d.get(f), env)
 
 
+def ty_of_shape(sh):
+    if sh == 'N': return 'F'
+    if sh[0] == 'st': return ('T', [ty_of_shape(x) for x in sh[1]])
+    if sh[0] == 'sr': return ('R', sorted((f, ty_of_shape(x)) for f, x in sh[1]))
+    return ('S', sh[1])
+
+
+def bind_mpat_ty(m, t, env, sums):
+    if m[0] == 'mc' and m[3] is not None and t is not None and t[0] == 'S':
+        pay = sums.get(t[1], [])
+        if m[2] < len(pay) and pay[m[2]] is not None:
+            bind_pat_ty(m[3], pay[m[2]], env)
+    elif m[0] == 'mt' and t is not None and t[0] == 'T':
+        for x, tx in zip(m[1], t[1]):
+            bind_mpat_ty(x, tx, env, sums)
+
+
 def synth(e, env, out, root, path):
     """type of e (None when unknown); appends (root, path, e, type) for every subexpression to `out`"""
     k = e[0]
@@ -190,6 +209,18 @@ def synth(e, env, out, root, path):
         sub(0); t = 'U'
     elif k == 'seq':
         sub(0); t = sub(1)
+    elif k == 'selfs':
+        t = ty_of_shape(e[1])
+    elif k == 'con':
+        if ch: sub(0)
+        t = ('S', e[1])
+    elif k == 'match':
+        ts = sub(0)
+        for i, (m, _) in enumerate(e[2]):
+            env2 = dict(env)
+            bind_mpat_ty(m, ts, env2, env.get('__sums__', {}))
+            ta = sub(i + 1, env2)
+            if i == 0: t = ta
     out.append((root, path, e, t))
     return t
 
@@ -198,7 +229,7 @@ def sites_of(p):
     """every subexpression of the program with its type: (root, path, expr, type).  root = ('fun', i) body of global i,
     ('glet', i), ('let', j) dsp let j, ('out', j)"""
     out = []
-    env = {}
+    env = {'__sums__': dict(p.get('types', []))}
     for i, g in enumerate(p['globals']):
         if g[0] == 'fun':
             env2 = dict(env)
@@ -232,6 +263,7 @@ def replace_at(e, path, new):
 def with_root(p, root, f):
     """copy of p with the expression at `root` replaced by f(old)"""
     q = {"globals": list(p['globals']), "inputs": list(p['inputs']), "lets": list(p['lets']), "outs": list(p['outs'])}
+    if p.get('types'): q['types'] = p['types']
     k, i = root
     if k == 'fun':
         g = p['globals'][i]
@@ -322,6 +354,47 @@ def mutants_at(site, env, fresh):
         out.append(('function-for-number', ('lit', 1)))
     if t == 'F' and k in ('lit', 'var'):
         out.append(('number-for-function', ('lam', [(fresh, None)], ('var', fresh))))
+    sums = env.get('__sums__', {})
+    if k == 'con':
+        pay = sums.get(e[1], [])
+        if e[3] is not None:
+            out.append(('ctor-missing-payload', ('con', e[1], e[2], None)))
+            out.append(('ctor-payload-type', ('con', e[1], e[2], tup_of(e[3]) if pay[e[2]] == 'F' else ('lit', 1))))
+        else:
+            out.append(('ctor-extra-payload', ('con', e[1], e[2], ('lit', 1))))
+        others = [i for i, c in enumerate(pay) if i != e[2] and (c is None) == (e[3] is None) and c != pay[e[2]]]
+        if others and e[3] is not None:
+            out.append(('ctor-other-payload', ('con', e[1], others[0], e[3])))
+    if k == 'match':
+        arms = e[2]
+        wild = [i for i, (m, _) in enumerate(arms) if m == ('mw',)]
+        kinds = {m[0] for m, _ in arms}
+        if wild and len(arms) >= 2:
+            out.append(('match-drop-wildcard-arm', ('match', e[1], [a for i, a in enumerate(arms) if i not in wild])))
+        if 'mc' in kinds and not wild and 'mt' not in kinds and len(arms) >= 2:
+            out.append(('match-drop-constructor-arm', ('match', e[1], arms[:-1])))
+        if len(arms) >= 2:
+            out.append(('match-arms-type', ('match', e[1], arms[:-1] + [(arms[-1][0], tup_of(arms[-1][1]))])))
+        if kinds <= {'ml', 'mw'}:
+            out.append(('match-scrutinee-tuple', ('match', tup_of(e[1]), arms)))
+            if sums:
+                tid = sorted(sums)[0]
+                out.append(('match-constructor-pattern-on-number', ('match', e[1], [(('mc', tid, 0, None), arms[0][1])] + arms[1:])))
+            out.append(('match-tuple-pattern-on-number', ('match', e[1], [(('mt', [('ml', 0), ('mw',)]), arms[0][1])] + arms[1:])))
+        if 'mc' in kinds and 'mt' not in kinds:
+            i = next(i for i, (m, _) in enumerate(arms) if m[0] == 'mc')
+            if not lmmx.mpat_vars(arms[i][0]):
+                out.append(('match-literal-pattern-on-sum', ('match', e[1], arms[:i] + [(('ml', 0), arms[i][1])] + arms[i + 1:])))
+            m = arms[i][0]
+            pay = sums.get(m[1], [])
+            if m[3] is None and m[2] < len(pay) and pay[m[2]] is None:
+                out.append(('match-binder-for-no-payload', ('match', e[1], arms[:i] + [(('mc', m[1], m[2], ('pv', fresh)), arms[i][1])] + arms[i + 1:])))
+            if m[3] is not None and m[3][0] == 'pv':
+                out.append(('match-payload-pattern-tuple', ('match', e[1], arms[:i] + [(('mc', m[1], m[2], ('pt', [m[3], ('pw',)])), arms[i][1])] + arms[i + 1:])))
+        if 'mt' in kinds:
+            i = next(i for i, (m, _) in enumerate(arms) if m[0] == 'mt')
+            m = arms[i][0]
+            out.append(('match-tuple-pattern-longer', ('match', e[1], arms[:i] + [(('mt', m[1] + [('mw',)]), arms[i][1])] + arms[i + 1:])))
     return out
 
 
@@ -343,6 +416,7 @@ def fresh_id(p):
             if s[0] == 'lam': m = max([m] + [x for x, _ in s[1]])
             if s[0] == 'let': m = max([m] + pat_ids(s[1]))
             if s[0] == 'cnamed': m = max([m, s[1]] + [x for x, _ in s[2]])
+            if s[0] == 'match': m = max([m] + [x for mp, _ in s[2] for x in lmmx.mpat_vars(mp)])
     return m + 1
 
 
@@ -384,8 +458,13 @@ def program_mutants(p, rng):
                 add_fun(('lam', [(y, None)], ('bin', 'add', ('bin', 'add', ('var', y), ('var', n + 1)), ('self',))),
                         ('app', ('app', ('var', n), [('lit', 1)]), [('lit', 2)]))))
     # fn fN(v){ let (a, b) = self  (a + v, b) }   ... + fN(1).0
-    out.append(('self-returns-tuple',
+    out.append(('self-returns-tuple-read-as-number',
                 add_fun(('let', ('pt', [('pv', n + 3), ('pv', n + 4)]), ('self',),
+                         ('tup', [('bin', 'add', ('var', n + 3), ('var', n + 1)), ('var', n + 4)])),
+                        ('proj', ('app', ('var', n), [('lit', 1)]), 0))))
+    # the same with `self` read at the function's (tuple) type: a well-typed program
+    out.append(('self-returns-tuple',
+                add_fun(('let', ('pt', [('pv', n + 3), ('pv', n + 4)]), ('selfs', ('st', ['N', 'N'])),
                          ('tup', [('bin', 'add', ('var', n + 3), ('var', n + 1)), ('var', n + 4)])),
                         ('proj', ('app', ('var', n), [('lit', 1)]), 0))))
     # fn fN(a:float, a:float){ a }  (never called)   /   let g = |a:float, a:float| { a }  (never called)
@@ -450,6 +529,9 @@ def pp_prog(p):
     the verdict must not depend on the order the fields are written in)"""
     pr = PPA(lmmx.fun_ids(p), SHUFFLE.fork(lmmx.prog_sx(p)))
     out = []
+    for tid, ctors in p.get('types', []):
+        out.append("type %s = %s" % (lmmx.tname(tid), " | ".join(lmmx.cname(tid, i) + ("" if t is None else "(" + lmmx.pp_ty(t) + ")")
+                                                                 for i, t in enumerate(ctors))))
     for g in p['globals']:
         if g[0] == 'fun':
             _, name, params, body, ret = g
@@ -502,20 +584,38 @@ FINDINGS = {
           "covers builtins, externals and type names only); no effect on the backends",
     "T5": "auto spread (a number -> number function applied to a tuple) of a LET-BOUND lambda is accepted and the VM code generator panics "
           "'value reg(N) not found' (site of F38): let g = |x:float| { x + 1.0 }  g((1.0, 2.0)).0 ; WASM plays",
-    "TS": "(not a defect) tuple-valued self is accepted by the real checker and outside Lmmx: fn f(v:float){ let (a, b) = self  (a + v, b) }",
+    "TS": "(not a defect) `self` has an inferred type in the real checker; the model needs it written at the function's type (XSelfS): the "
+          "mutant reads a tuple-valued self with the number form of `self`",
+    "T6": "typing.rs Expr::Match unifies the types of the arms with `let _ = self.unify_types(first, *ty)`: the error is DROPPED, arms of "
+          "different types are accepted and the match has the type of its first arm (fn dsp(){ (match now { 0 => 1.0, _ => (2.0, 3.0) }) + 1.0 } "
+          "plays 2 3 3: the first word of the tuple is used as the number)",
+    "T7": "check_match_exhaustiveness only looks at sum-typed scrutinees: a match on a number or a tuple without `_` arm is accepted; when no "
+          "arm applies the VM runs the LAST arm's code and WASM plays 0.0 (fn dsp(){ match now { 0 => 10.0, 1 => 20.0 } }: VM 10 20 20, WASM 10 20 0; "
+          "the reference semantics is stuck: E_NOMATCH)",
+    "T8": "the patterns of a match are not checked against the type of the scrutinee (the unification result of a literal pattern is dropped, "
+          "constructor / tuple patterns meet any type): a constructor or tuple pattern on a number, a tuple pattern longer than the tuple, a "
+          "binder for a constructor that has no payload (match A { A(q) => q, .. }: VM compile panic `value extfun q () not found`, WASM dsp "
+          "yields NO output word), a tuple payload pattern on a number payload are accepted; such arms are silently never taken",
+    "T9": "a constructor that carries a payload, used WITHOUT it as the scrutinee of a match or let-bound (type T = A | B(float)  match B { .. }), "
+          "is accepted (the constructor's function type is never compared with the sum type the patterns ask for): VM compile panic `value "
+          "constructor B(tag=1, ..) not found`, WASM invalid module",
     "DEF": "default parameter values are not visited by the type check (C04/F42, F50): fn f(x:float, y:float = (1.0, 2.0))",
     "F40": "C03/F40: arithmetic between a number and a tuple (broadcasting) used as a number",
 }
 
 # how the backends are known to fail on programs that only the (unsound) real checker accepts
 FAILURE_SIGNATURES = (r"range end index \d+ out of range for slice|value (reg\(\d+\)|extfun .*) not found|Invalid indirect callable|"
-                      r"invalid number of return value|Failed to load WASM module|Failed to call function|^crash:")
+                      r"invalid number of return value|Failed to load WASM module|Failed to call function|^crash:|value constructor .* not found|value function \d+ not found|called `Option::unwrap\(\)` on a `None` value")
 
 TOLERATED = {
     "wrong-field": "T1", "pattern-field": "T1", "pattern-record": "T1", "record-drop-field": "T1", "record-rename-field": "T1",
-    "self-returns-closure": "T2", "self-returns-tuple": "TS",
+    "self-returns-closure": "T2", "self-returns-tuple-read-as-number": "TS",
     "delay-tuple": "T3", "delay-time-tuple": "T3", "assign-function-name": "T4",
     "arg-tuple": "T5", "pipe-tuple": "T5", "default-tuple": "DEF", "binop-tuple": "F40", "neg-tuple": "F40",
+    "match-arms-type": "T6", "match-drop-wildcard-arm": "T7", "match-scrutinee-tuple": "T8",
+    "match-constructor-pattern-on-number": "T8", "match-tuple-pattern-on-number": "T8", "match-tuple-pattern-longer": "T8",
+    "match-payload-pattern-tuple": "T8", "match-binder-for-no-payload": "T8", "match-literal-pattern-on-sum": "T8",
+    "ctor-missing-payload": "T9", "ctor-other-payload": "T0",
 }
 
 
@@ -525,12 +625,12 @@ def free_self(p):
     argument) a mutation can change the type that is inferred for it, which leaves the annotated (monomorphic) fragment"""
     def go(e):
         for c in lmmx_shrink.children(e):
-            if c[0] == 'self' and e[0] not in ('bin', 'neg', 'mem', 'delay'):
+            if c[0] == 'selfs' or (c[0] == 'self' and e[0] not in ('bin', 'neg', 'mem', 'delay')):
                 return True
             if go(c):
                 return True
         return False
-    return any(b[0] == 'self' or go(b) for b in lmmx.all_bodies(p))
+    return any(b[0] in ('self', 'selfs') or go(b) for b in lmmx.all_bodies(p))
 
 
 def prove_part(ck):
@@ -568,6 +668,9 @@ def prove_part(ck):
 
 
 def build_sides():
+    if os.environ.get("LMMT_DEV_EXE"):      # development only: a privately built model driver
+        rc, out, bindir = vplib.cargo_build("lang", ["lmmm_run"])
+        return os.environ["LMMT_DEV_EXE"], os.path.join(bindir, "lmmm_run"), None
     rc, out, _ = vplib.coq_make([EXTRACT_TARGET], timeout=900)
     if rc != 0:
         return None, None, "extraction of the type checker failed: " + vplib.first_coq_error(out)[:300]
@@ -637,7 +740,7 @@ def replay_of(p, rows, m, real, outs=None, kind=None):
 
 def run_corpus(ck, mexe, iexe, viol, cov):
     import lmmx_part
-    path = os.path.join(VERIF, "corpus", "lmmt", "cases.json")
+    path = os.path.join(os.environ.get("LMMT_CORPUS") or os.path.join(VERIF, "corpus", "lmmt"), "cases.json")
     if not os.path.exists(path):
         viol.append(("types: corpus/lmmt/cases.json is missing", {"no_input": True}))
         return
@@ -696,7 +799,7 @@ def run_part(ck, quick=True, site_class=None):
 
     rng = ck.rng.fork("lmmt")
     n_progs, n_mut, n_samples = (1000, 3, 4) if quick else (6000, 4, 6)
-    cases3 = lmmx_gen.gen_cases(rng, n_progs, n_samples, tag="lmmt", dyn_share=0, ext=False)
+    cases3 = lmmx_gen.gen_cases(rng, n_progs, n_samples, tag="lmmt", dyn_share=0, ext=True)
     items = []          # (kind | None, prog, rows)
     for i, (p, rows, _) in enumerate(cases3):
         items.append((None, p, rows))
@@ -798,6 +901,12 @@ def run_part(ck, quick=True, site_class=None):
                 ck.known(known[fid], "program accepted by tc_prog and typing.rs: " + why[:160]); bump("known_finding_" + fid); continue
             if "X7" in known and "crash" in why and kind is not None:
                 pass
+            # compile failures of a backend inside a class of the C02 part (witnesses in corpus/lmmx, reported there on every run):
+            # MG: VM `value reg(N) not found` for a match with payload binders at global scope; W10: WASM invalid module for a lambda
+            # returning its own sum-typed self
+            lc = sorted(c for c in kc if c in ("MG", "W10"))
+            if lc and all(v == 'ok' or re.search(r"value reg\(\d+\) not found|Failed to load WASM module", v) for v in outs.values()):
+                bump("both_accept_backend_compile_failure_in_lmmx_class(%s)" % "+".join(lc)); continue
             bad.append((i, "a program accepted by the real type checker (and by tc_prog) does not compile / run: " + why[:300])); continue
         fid = TOLERATED.get(kind) or "T0"
         if not all(v == 'ok' or re.search(FAILURE_SIGNATURES, v) for v in outs.values()):
